@@ -83,6 +83,8 @@ class MesageSwitchSimpleOpWriteHandler(AbstractWriteHandler):
                     self.start_vertex,
                     check_end_block=self.check_end_block,
                     disallow_nested=True,
+                    # A message switch only holds cases; if the routine ends with it, the return goes after it.
+                    insert_missing_end=False,
                 ).write_content()
             except NestedBlockDisallowedError:
                 raise ValueError(
